@@ -71,10 +71,11 @@ structure Inv (s : St) : Prop where
   lastGone : s.pc = .gone → s.last = some .exit
   sl2 : s.wk.sleep = 2 →
     s.pc = .sleep ∨ (s.pc = .idle ∧ (s.wk.itw = true → s.wk.reading = true)) ∨
-    ((s.pc = .dropCancelWake ∨ dropped s.pc = true) ∧ s.ev0 = Limits.eventCancel)
+    (s.pc = .dropCancelWake ∧ s.ev0 = Limits.eventCancel)
   cntW : s.writes + b2n (decide (s.wk.sleep = 2)) ≤ s.sleeps
   cntR : s.wk.itw = true → s.reads + b2n (decide (s.pc = .sleep)) = s.sleeps
   sleepNE : s.pc = .sleep → s.tasksEmpty = false
+  lastWait : ∀ x, s.last = some (.wait x) → s.set.isSome = true
 
 theorem inv_init (d : Driver) (itw : Bool) : Inv (St.init d itw) := by
   cases d <;> constructor <;> simp [St.init, running, dropped, noReadPc, b2n]
@@ -82,7 +83,7 @@ theorem inv_init (d : Driver) (itw : Bool) : Inv (St.init d itw) := by
 macro "inv_auto" h:ident hi:ident : tactic => `(tactic| (
   step_split $h
   all_goals (obtain ⟨hs, _⟩ := $h; subst hs)
-  all_goals (obtain ⟨h1, h2, h3, h4, h5, h6, h7, h8, h9, h10, h11, h12, h13, h14, h15, h16, h17, h18⟩ := $hi)
+  all_goals (obtain ⟨h1, h2, h3, h4, h5, h6, h7, h8, h9, h10, h11, h12, h13, h14, h15, h16, h17, h18, h19⟩ := $hi)
   all_goals try (cases ‹Next›)
   all_goals (constructor <;> simp_all [running, dropped, noReadPc, b2n, userPc, Next.pc])
   all_goals try (first | omega | (split at * <;> omega))
@@ -222,15 +223,13 @@ of the two parties the executor talks to:
   `afterPoll tasksEmpty`: `Props.C22.tasks_ready_iff_empty`); without the inter-task-wakeup feature a
   task does not go to sleep with nothing registered and nobody wakes a sleeping task (both documented
   panics of the runtime);
-and EXCLUDES exactly the two situations in which the current code panics on a legal schedule (known
-findings): `block_on` resuming after an answer while no waitable set exists (`call`, block driver), and a
-wake of a task in state SLEEPING whose wake-up read is not pending (`wake`: only possible after a
-cancellation while asleep, `Props.C23.wake_after_exit_full_false`). -/
+Nothing else is excluded: the two situations in which the code used to panic on a legal schedule were
+repaired in /repo (`Drop for TaskState` marks the task woken first, so a wake of a task in state SLEEPING
+always meets a pending read — invariant `sl2`; `block_on` answers a YIELD without a waitable set by polling
+again — and a WAIT always has a set, invariant `lastWait`). -/
 def Enabled (s : St) : Label → Prop
   | .start => s.pc = .fresh ∧ s.driver = .start
-  | .call e w _ =>
-    s.pc = .idle ∧ e ≤ Limits.eventCancel ∧
-    (s.driver = .block → s.last ≠ none → s.set.isSome = true)
+  | .call e _ _ => s.pc = .idle ∧ e ≤ Limits.eventCancel
   | .tau => (∃ w c n, s.pc = .deliver w c n ∧ w ∈ s.members) ∨ s.pc = .setPolling ∨ s.pc = .dropFields
   | .tok _ => userPc s.pc = true
   | .reg _ n => userPc s.pc = true ∧ s.sharedGone = false ∧ n ≠ 0
@@ -238,7 +237,7 @@ def Enabled (s : St) : Label → Prop
   | .cloneRef => userPc s.pc = true ∧ s.sharedGone = false
   | .dropRef => userPc s.pc = true ∧ s.sharedGone = false ∧ 0 < s.clones
   | .wake ans => userPc s.pc = true ∧ s.sharedGone = false ∧
-      (s.wk.sleep = Limits.sleepStateSleeping → s.wk.itw = true ∧ s.wk.reading = true ∧ ans = wroteOne)
+      (s.wk.sleep = Limits.sleepStateSleeping → s.wk.itw = true ∧ ans = wroteOne)
   | .cbDone => ∃ n, s.pc = .inCb n
   | .cancelRead _ => s.pc = .cancelWake ∨ s.pc = .dropCancelWake
   | .pollDone _ _ => s.pc = .pollTasks
@@ -250,8 +249,14 @@ def Enabled (s : St) : Label → Prop
 set_option maxHeartbeats 4000000 in
 theorem never_panic {s : St} {l : Label} {m : String} {e : List Ev} (hi : Inv s) (hm : InvM s) (he : Enabled s l)
     (h : step s l = .panic m e) : False := by
-  obtain ⟨h1, h2, h3, h4, h5, h6, h7, h8, h9, h10, h11, h12, h13, h14, h15, h16, h17, h18⟩ := hi
+  obtain ⟨h1, h2, h3, h4, h5, h6, h7, h8, h9, h10, h11, h12, h13, h14, h15, h16, h17, h18, h19⟩ := hi
   obtain ⟨m1, m2⟩ := hm
+  have hsl : userPc s.pc = true → s.wk.sleep = 2 → s.wk.itw = true → s.wk.reading = true := by
+    intro hu h2' hitw
+    rcases h15 h2' with hp | ⟨_, hrd⟩ | ⟨hp, _⟩
+    · simp [hp, userPc] at hu
+    · exact hrd hitw
+    · simp [hp, userPc] at hu
   cases l <;> step_split h
   all_goals try (cases ‹Next›)
   all_goals simp_all [Enabled, userPc, running, dropped, noReadPc, pendingReader, wroteOne]
